@@ -33,8 +33,16 @@ type hbFeat struct {
 }
 
 type bufOp struct {
-	Kind string `json:"kind"` // shape | set_design | set_variations | set_coords | set_ppem | new_font
+	// shape | set_design | set_variations | set_coords | set_ppem | new_font |
+	// burst_shape: Count times Clear+AddRunes+Shape of the given (tiny) input in one step, alternating
+	//   between the fonts of Slot2 and Slot and ending with Slot, results not compared |
+	// burst_design: Count Font.SetVarCoordsDesign calls on Slot alternating between AltDesign and Design
+	Kind string `json:"kind"`
 	Slot int    `json:"slot"`
+	// bursts
+	Count     int       `json:"count,omitempty"`
+	Slot2     int       `json:"slot2,omitempty"`
+	AltDesign []float32 `json:"alt_design,omitempty"`
 	// shape
 	Text         []rune   `json:"text,omitempty"`
 	Offset       int      `json:"offset,omitempty"`
@@ -72,12 +80,13 @@ type bufMachine struct {
 	lastCfg   map[int]string // slot -> cfg at its last shape
 	lastPlan  map[int]string // slot -> props+features at its last shape
 	lastSlot  int
+	lastFeats map[int][]hbFeat
 	flags     map[string]bool
 	shapes    int
 }
 
 func newBufMachine(t ev.TB, faces []faceDef) *bufMachine {
-	m := &bufMachine{t: t, c: &bufCase{Faces: faces}, used: harfbuzz.NewBuffer(), lastCfg: map[int]string{}, lastPlan: map[int]string{}, lastSlot: -1, flags: map[string]bool{}}
+	m := &bufMachine{t: t, c: &bufCase{Faces: faces}, used: harfbuzz.NewBuffer(), lastCfg: map[int]string{}, lastPlan: map[int]string{}, lastFeats: map[int][]hbFeat{}, lastSlot: -1, flags: map[string]bool{}}
 	for _, fd := range faces {
 		pf := mustFont(t, fd.Font)
 		m.pfs = append(m.pfs, pf)
@@ -112,6 +121,25 @@ func (m *bufMachine) apply(op bufOp) {
 		c := &m.cfgs[s]
 		c.Mode, c.Vars, c.Coords, c.Design = "design", nil, nil, op.Design
 		m.fonts[s].SetVarCoordsDesign(append([]float32(nil), op.Design...))
+	case "burst_design":
+		if len(op.Design) != len(m.pfs[s].Axes) || len(op.AltDesign) != len(m.pfs[s].Axes) || op.Count < 1 {
+			m.t.Fatalf("infrastructure: incomplete burst in replayed case")
+		}
+		for i := 1; i <= op.Count; i++ {
+			if (op.Count-i)%2 == 0 {
+				m.fonts[s].SetVarCoordsDesign(append([]float32(nil), op.Design...))
+			} else {
+				m.fonts[s].SetVarCoordsDesign(append([]float32(nil), op.AltDesign...))
+			}
+		}
+		c := &m.cfgs[s]
+		c.Mode, c.Vars, c.Coords, c.Design = "design", nil, nil, op.Design
+		m.flags[burstLabel(op.Count)] = true
+	case "burst_shape":
+		if op.Slot2 < 0 || op.Slot2 >= len(m.faces) || op.Count < 1 {
+			m.t.Fatalf("infrastructure: incomplete burst in replayed case")
+		}
+		m.burstShape(op)
 	case "set_variations", "set_coords", "set_ppem":
 		applyCfgOp(op.Kind, op.cfgOp, m.faces[s], &m.cfgs[s])
 		m.fonts[s] = harfbuzz.NewFont(m.faces[s]) // the face was modified: a Font made before must not be kept
@@ -228,6 +256,33 @@ func (m *bufMachine) shape(op bufOp) {
 	}
 }
 
+// burstShape reuses the buffer Count times in one step (Clear, AddRunes, Shape of a tiny input).
+// The calls are not compared with fresh objects; the steps that follow are.
+func (m *bufMachine) burstShape(op bufOp) {
+	slots := [2]int{op.Slot, op.Slot2}
+	done := 0
+	p := try(func() {
+		for i := 1; i <= op.Count; i++ {
+			sl := slots[(op.Count-i)%2]
+			m.used.Clear()
+			op.run(m.used, m.fonts[sl], int32(m.pfs[sl].Font.Upem()))
+			done = i
+		}
+	})
+	m.flags[burstLabel(op.Count)] = true
+	if p != nil {
+		sl := slots[(op.Count-(done+1))%2]
+		if pf := try(func() {
+			op.run(harfbuzz.NewBuffer(), harfbuzz.NewFont(freshFace(m.pfs[sl], m.cfgs[sl])), int32(m.pfs[sl].Font.Upem()))
+		}); pf != nil {
+			m.flags["both_panic_restart"] = true
+			m.used = harfbuzz.NewBuffer()
+			return
+		}
+		m.fail("call %d of the burst panicked on the used buffer, a fresh buffer does not panic on this input: %v", done+1, p)
+	}
+}
+
 func summarize(r bufResult) string {
 	s := "["
 	for i, g := range r.Glyphs {
@@ -258,6 +313,31 @@ func (m *bufMachine) classify(op bufOp, cfg faceCfg) {
 			m.flags["revisit_face_with_other_props"] = true
 		}
 	}
+	if prev, ok := m.lastFeats[op.Slot]; ok && len(prev) == len(op.Features) && len(prev) > 0 {
+		sameTags, otherValue, larger, flip, bounds := true, false, false, false, false
+		for i := range prev {
+			a, b := prev[i], op.Features[i]
+			sameTags = sameTags && a.Tag == b.Tag
+			otherValue = otherValue || a.Value != b.Value
+			ag, bg := a.Start == 0 && a.End < 0, b.Start == 0 && b.End < 0
+			flip = flip || ag != bg
+			larger = larger || (!ag && !bg && b.Value > a.Value)
+			bounds = bounds || (!ag && !bg && (a.Start != b.Start || a.End != b.End))
+		}
+		if sameTags && otherValue {
+			m.flags["revisit_face_same_feature_tags_other_values"] = true
+		}
+		if sameTags && larger {
+			m.flags["revisit_face_larger_ranged_value"] = true
+		}
+		if sameTags && flip {
+			m.flags["revisit_face_global_ranged_flip"] = true
+		}
+		if sameTags && bounds {
+			m.flags["revisit_face_other_range_bounds"] = true
+		}
+	}
+	m.lastFeats[op.Slot] = op.Features
 	if m.lastSlot >= 0 && m.lastSlot != op.Slot {
 		m.flags["alternating_fonts"] = true
 	}
@@ -330,7 +410,7 @@ func drawBufShape(t *rapid.T, m *bufMachine) bufOp {
 		}
 	}
 	for i, n := 0, rapid.SampledFrom([]int{0, 0, 0, 1, 1, 2}).Draw(t, "nFeatures"); i < n; i++ {
-		f := hbFeat{Tag: rapid.SampledFrom(shaperFeatures).Draw(t, "feature"), Value: uint32(rapid.IntRange(0, 1).Draw(t, "featureValue")), End: -1}
+		f := hbFeat{Tag: drawFeatureTag(t, pf), Value: rapid.SampledFrom(featureValues).Draw(t, "featureValue"), End: -1}
 		if len(text) > 0 && rapid.IntRange(0, 3).Draw(t, "ranged") == 0 {
 			f.Start = rapid.IntRange(0, len(text)).Draw(t, "featStart")
 			f.End = rapid.IntRange(f.Start, len(text)).Draw(t, "featEnd")
@@ -378,6 +458,49 @@ func TestPropBuffer(t *testing.T) {
 			}
 			m.apply(op)
 		})
+		weighted(actions, "shape_again_other_features", 3, func(rt *rapid.T) {
+			// the latest (or an earlier) Shape once more with ONLY its feature list changed: a value,
+			// global <-> ranged, the range bounds, one feature more or fewer, the order
+			var earlier []bufOp
+			for _, o := range m.c.Ops {
+				if o.Kind == "shape" {
+					earlier = append(earlier, o)
+				}
+			}
+			if len(earlier) == 0 {
+				m.apply(drawBufShape(rt, m))
+				return
+			}
+			op := earlier[len(earlier)-1]
+			if rapid.IntRange(0, 3).Draw(rt, "notLatest") == 0 {
+				op = earlier[rapid.IntRange(0, len(earlier)-1).Draw(rt, "earlier")]
+			}
+			op.Features = mutateHbFeats(rt, op.Features, m.pfs[op.Slot], len(op.Text))
+			m.apply(op)
+		})
+		weighted(actions, "burst", 1, func(rt *rapid.T) {
+			// a Shape, many cheap uses in one step, possibly a coordinates change, the same Shape again
+			q := drawBufShape(rt, m)
+			m.apply(q)
+			pf := m.pfs[q.Slot]
+			if len(pf.Axes) > 0 && rapid.Bool().Draw(rt, "designBurst") {
+				m.apply(bufOp{Kind: "burst_design", Slot: q.Slot, Count: drawBurstN(rt, len(pf.GIDs) < 300), AltDesign: drawDesign(rt, pf), cfgOp: cfgOp{Design: drawDesign(rt, pf)}})
+			} else {
+				tiny := drawBufShape(rt, m)
+				if tiny.Length > 2 {
+					tiny.Length = 2
+				}
+				if tiny.Split >= tiny.Length {
+					tiny.Split = 0
+				}
+				tiny.Kind, tiny.Slot2, tiny.Count = "burst_shape", rapid.IntRange(0, len(m.faces)-1).Draw(rt, "slot2"), drawBurstN(rt, false)
+				m.apply(tiny)
+				if len(pf.Axes) > 0 && rapid.Bool().Draw(rt, "thenChange") {
+					m.apply(bufOp{Kind: "set_design", Slot: q.Slot, cfgOp: cfgOp{Design: drawDesign(rt, pf)}})
+				}
+			}
+			m.apply(q)
+		})
 		weighted(actions, "set_design", 1, func(rt *rapid.T) {
 			slot := rapid.IntRange(0, len(m.faces)-1).Draw(rt, "slot")
 			if len(m.pfs[slot].Axes) == 0 {
@@ -401,6 +524,49 @@ func TestPropBuffer(t *testing.T) {
 		rt.Repeat(actions)
 		m.finish()
 	})
+}
+
+// mutateHbFeats changes only the feature list of a call.
+func mutateHbFeats(t *rapid.T, in []hbFeat, pf *poolFont, textLen int) []hbFeat {
+	out := append([]hbFeat(nil), in...)
+	drawRange := func(f *hbFeat) {
+		f.Start = rapid.IntRange(0, textLen).Draw(t, "featStart")
+		f.End = rapid.IntRange(f.Start, textLen).Draw(t, "featEnd")
+		if f.Start == 0 && f.End == 0 && textLen > 0 {
+			f.End = 1
+		}
+	}
+	kind := rapid.IntRange(0, 11).Draw(t, "featureMutation")
+	switch {
+	case len(out) == 0 || kind == 0:
+		f := hbFeat{Tag: drawFeatureTag(t, pf), Value: rapid.SampledFrom(featureValues).Draw(t, "featureValue"), End: -1}
+		if rapid.Bool().Draw(t, "ranged") {
+			drawRange(&f)
+		}
+		return append(out, f)
+	case kind == 1:
+		i := rapid.IntRange(0, len(out)-1).Draw(t, "drop")
+		return append(out[:i], out[i+1:]...)
+	case kind == 2 && len(out) >= 2:
+		out[0], out[len(out)-1] = out[len(out)-1], out[0]
+		return out
+	case kind <= 4: // global <-> ranged
+		i := rapid.IntRange(0, len(out)-1).Draw(t, "which")
+		if out[i].Start == 0 && out[i].End < 0 {
+			drawRange(&out[i])
+		} else {
+			out[i].Start, out[i].End = 0, -1
+		}
+		return out
+	case kind <= 6: // other bounds (a global feature becomes ranged)
+		i := rapid.IntRange(0, len(out)-1).Draw(t, "which")
+		drawRange(&out[i])
+		return out
+	default: // other value
+		i := rapid.IntRange(0, len(out)-1).Draw(t, "which")
+		out[i].Value = (out[i].Value + uint32(rapid.IntRange(1, 3).Draw(t, "valueShift"))) % 4
+		return out
+	}
 }
 
 func replayBuffer(t *testing.T, raw json.RawMessage) {
